@@ -240,6 +240,107 @@ impl C14 {
     }
 }
 
+impl C14 {
+    /// long observation sequences / models with more than 256 states: the oracle is an independent DP in exact
+    /// f64 log space (cross-checked against the path enumeration on the small cases, see `check`)
+    fn dp_case(&self, ctx: &mut Ctx, h: &Hmm, class: &str) {
+        let (s, t) = (h.s, h.obs.len());
+        let ln = |x: f64| if x > 0.0 { x.ln() } else { f64::NEG_INFINITY };
+        let lse = |xs: &[f64]| -> f64 {
+            let m = xs.iter().cloned().fold(f64::NEG_INFINITY, f64::max);
+            if m == f64::NEG_INFINITY {
+                return m;
+            }
+            m + xs.iter().map(|x| (x - m).exp()).sum::<f64>().ln()
+        };
+        let endl = |k: usize| h.end.as_ref().map_or(0.0, |e| ln(e[k]));
+        // oracle DPs
+        let mut vit: Vec<f64> = (0..s).map(|k| ln(h.init[k]) + ln(h.emis[k][h.obs[0]])).collect();
+        let mut fwd = vit.clone();
+        for i in 1..t {
+            let (pv, pf) = (vit.clone(), fwd.clone());
+            for j in 0..s {
+                let e = ln(h.emis[j][h.obs[i]]);
+                let mut best = f64::NEG_INFINITY;
+                let mut terms = Vec::with_capacity(s);
+                for k in 0..s {
+                    let a = ln(h.trans[k][j]);
+                    best = best.max(pv[k] + a);
+                    terms.push(pf[k] + a);
+                }
+                vit[j] = best + e;
+                fwd[j] = lse(&terms) + e;
+            }
+        }
+        let vbest = (0..s).map(|k| vit[k] + endl(k)).fold(f64::NEG_INFINITY, f64::max);
+        let total = lse(&(0..s).map(|k| fwd[k] + endl(k)).collect::<Vec<_>>());
+        let tm = Array2::from_shape_fn((s, s), |(i, j)| h.trans[i][j]);
+        let em = Array2::from_shape_fn((s, h.m), |(i, j)| h.emis[i][j]);
+        let im = Array1::from_shape_fn(s, |i| h.init[i]);
+        let endv = h.end.as_ref().map(|e| Array1::from_shape_fn(s, |i| e[i]));
+        let r = guard(|| {
+            if h.kind == 0 {
+                let model = discrete_emission::Model::with_float(&tm, &em, &im).unwrap();
+                run_model(&model, &h.obs)
+            } else {
+                let model = discrete_emission_opt_end::Model::with_float(&tm, &em, &im, endv.as_ref()).unwrap();
+                run_model(&model, &h.obs)
+            }
+        });
+        ctx.eval(3);
+        let desc = |w: String| {
+            let o = Obj::new().s("class", class).u("states", s as u64).u("symbols", h.m as u64).u("observations", t as u64).f("oracle_ln_viterbi", vbest).f("oracle_ln_likelihood", total);
+            let o = if s <= 4 { o.d("transition", &h.trans).d("emission", &h.emis).d("initial", &h.init).d("end", &h.end).d("observations_prefix", &&h.obs[..t.min(40)]) } else { o };
+            o.s("what", &w).done()
+        };
+        let (vp, vprob, f, b) = match r {
+            Ok(x) => x,
+            Err(p) => {
+                ctx.violation(&format!("hmm:{}:panic:{}", class, panic_site(&p)), desc(p));
+                return;
+            }
+        };
+        let close = |a: f64, b: f64, tol: f64| (a == b) || (a - b).abs() <= tol;
+        if vp.len() != t || vp.iter().any(|&x| x >= s) {
+            ctx.violation("hmm:viterbi:path-malformed", desc(format!("path of length {}", vp.len())));
+            return;
+        }
+        // joint log probability of the returned path
+        let mut jp = ln(h.init[vp[0]]) + ln(h.emis[vp[0]][h.obs[0]]);
+        for i in 1..t {
+            jp += ln(h.trans[vp[i - 1]][vp[i]]) + ln(h.emis[vp[i]][h.obs[i]]);
+        }
+        jp += endl(vp[t - 1]);
+        let tolv = 1e-7 * (1.0 + vbest.abs().min(1e6));
+        if vprob.is_nan() {
+            ctx.violation("hmm:viterbi:probability-not-a-probability", desc("NaN".into()));
+        } else if !close(vprob, jp, tolv) {
+            ctx.violation("hmm:viterbi:reported-probability-is-not-the-joint-probability-of-its-path", desc(format!("path joint ln p = {}, reported {}", jp, vprob)));
+        } else if !close(jp, vbest, tolv) {
+            ctx.violation("hmm:viterbi:path-not-maximal", desc(format!("path joint ln p = {}, best path has {}", jp, vbest)));
+        }
+        let tolf = (t as f64 + 1.0) * 1.005f64.ln() + 1e-9;
+        for (name, v) in [("forward", f), ("backward", b)] {
+            if v.is_nan() || v == f64::INFINITY {
+                ctx.violation(&format!("hmm:{}:nan-or-infinite", name), desc(format!("{}", v)));
+            } else if total == f64::NEG_INFINITY {
+                if v != f64::NEG_INFINITY {
+                    ctx.violation(&format!("hmm:{}:impossible-sequence-not-zero", name), desc(format!("ln p = {}", v)));
+                }
+            } else if (v - total).abs() > tolf {
+                ctx.violation(&format!("hmm:{}:likelihood-wrong", name), desc(format!("{} ln p = {}, oracle {}, tolerance {}", name, v, total, tolf)));
+            } else {
+                ctx.maxf(&format!("max_abs_log_error_{}_long", name), (v - total).abs());
+            }
+        }
+        ctx.shape(true, &("C14", class, h.kind, h.end.is_some(), s.min(260), super::alnspec::size_class(t), total == f64::NEG_INFINITY, vbest < -500.0));
+        ctx.count(&format!("dp_oracle_cases:{}", class), 1);
+        if vbest < -500.0 && vbest.is_finite() {
+            ctx.count("cases_with_ln_probability_below_-500", 1);
+        }
+    }
+}
+
 impl Monitor for C14 {
     fn id(&self) -> &'static str {
         "C14"
@@ -260,6 +361,7 @@ impl Monitor for C14 {
          sequence of length T in 1..=6 (quick) / 1..=7 (thorough); probabilities from {0, dyadic values producing ties, random}, rows normalised, sub-stochastic or all zero. \
          Oracle: enumeration of all S^T state paths in f64 (joint = init * prod trans * prod emis * end). Checked: joint(viterbi path) == reported probability == max joint (relative 1e-9); \
          forward and backward within (1.005)^(T+1)-1 of the enumerated sum; likelihood >= viterbi; impossible sequences give exactly ln 0 (never NaN/inf/panic). \
+         About 0.3 % of the cases use an independent exact log-space DP (cross-checked against the enumeration on small cases) as oracle: observation sequences of length 150-1500 (quick) whose log probability is far below -500, and models with 257-300 states. \
          shape = (model kind, end vector?, S, T, #zero entries class, impossible?, #tied best paths class); non-trivial = T >= 2 or S >= 2"
     }
     fn run_case(&mut self, ctx: &mut Ctx, g: u64, rng: &mut Rng) {
@@ -321,11 +423,79 @@ impl Monitor for C14 {
                     obs: vec![0, 1, 2, 2, 0],
                     kind: 0,
                 },
+                6 if !ctx.tiny() => {
+                    // long sequence: log probability below -500 (fast-exp underflow territory)
+                    let h = Hmm {
+                        s: 3,
+                        m: 4,
+                        trans: vec![vec![0.6, 0.3, 0.1], vec![0.2, 0.5, 0.3], vec![0.3, 0.3, 0.4]],
+                        emis: vec![vec![0.4, 0.3, 0.2, 0.1], vec![0.1, 0.2, 0.3, 0.4], vec![0.25, 0.25, 0.25, 0.25]],
+                        init: vec![0.5, 0.3, 0.2],
+                        end: None,
+                        obs: (0..1200).map(|i| (i * 7 + i / 5) % 4).collect(),
+                        kind: 0,
+                    };
+                    return self.dp_case(ctx, &h, "long-sequence");
+                }
+                7 if !ctx.tiny() => {
+                    // 300 states, optimal path through states above 255
+                    let s = 300;
+                    let mut trans = vec![vec![0.0; s]; s];
+                    for i in 0..s {
+                        trans[i][(i + 1) % s] = 0.9;
+                        trans[i][(i * 7 + 3) % s] += 0.1;
+                    }
+                    let mut init = vec![0.0; s];
+                    init[270] = 1.0;
+                    let h = Hmm { s, m: 1, trans, emis: vec![vec![1.0]; s], init, end: None, obs: vec![0; 6], kind: 1 };
+                    return self.dp_case(ctx, &h, "many-states");
+                }
                 _ => gen_hmm(rng, ctx.by_tier(4, 6, 7)),
             };
             return self.check(ctx, &h);
         }
-        let h = gen_hmm(rng, ctx.by_tier(4, 6, 7));
-        self.check(ctx, &h);
+        match rng.below(if ctx.tiny() { 100_000 } else { 4000 }) {
+            0..=11 => {
+                // long observation sequence (log probability far below -500)
+                let mut h = gen_hmm(rng, 4);
+                if h.s < 2 {
+                    return self.check(ctx, &h);
+                }
+                let t = rng.range(150, ctx.by_tier(300, 1500, 4000));
+                h.obs = (0..t).map(|_| rng.usize(h.m)).collect();
+                self.dp_case(ctx, &h, "long-sequence");
+            }
+            12 => {
+                // more than 256 states
+                let s = rng.range(257, 300);
+                let m = rng.range(1, 3);
+                let row = |rng: &mut Rng, n: usize| -> Vec<f64> {
+                    let mut v: Vec<f64> = (0..n).map(|_| if rng.chance(3, 4) { 0.0 } else { rng.f64() + 1e-3 }).collect();
+                    let i = rng.usize(n);
+                    v[i] += 0.5;
+                    let sum: f64 = v.iter().sum();
+                    v.iter().map(|x| x / sum).collect()
+                };
+                let h = Hmm {
+                    s,
+                    m,
+                    trans: (0..s).map(|_| row(rng, s)).collect(),
+                    emis: (0..s).map(|_| row(rng, m)).collect(),
+                    init: row(rng, s),
+                    end: if rng.chance(1, 2) { Some((0..s).map(|_| rng.f64()).collect()) } else { None },
+                    obs: (0..rng.range(2, 6)).map(|_| rng.usize(m)).collect(),
+                    kind: 1,
+                };
+                self.dp_case(ctx, &h, "many-states");
+            }
+            _ => {
+                let h = gen_hmm(rng, ctx.by_tier(4, 6, 7));
+                self.check(ctx, &h);
+                // the DP oracle is cross-checked against the enumeration on every 16th small case
+                if g % 16 == 0 {
+                    self.dp_case(ctx, &h, "small-cross-check");
+                }
+            }
+        }
     }
 }
